@@ -94,11 +94,24 @@ type entryReport struct {
 	Inconcl     []string       `json:"inconclusive,omitempty"`
 }
 
+// defaultRoot is the directory this binary was built into (<root>/bin/check), so that a copy of /verif elsewhere
+// (a committed snapshot being run in the background) uses its own harnesses, evidence and work directories.
+func defaultRoot() string {
+	if exe, err := os.Executable(); err == nil {
+		if r := filepath.Dir(filepath.Dir(exe)); r != "" {
+			if st, err := os.Stat(filepath.Join(r, "harness")); err == nil && st.IsDir() {
+				return r
+			}
+		}
+	}
+	return "/verif"
+}
+
 func main() {
 	tier := flag.String("tier", os.Getenv("VERIF_TIER"), "quick|thorough")
 	only := flag.String("only", "", "run only entries whose name contains this")
 	repo := flag.String("repo", "/repo", "repository root")
-	root := flag.String("root", "/verif", "verif root")
+	root := flag.String("root", defaultRoot(), "verif root")
 	workers := flag.Int("workers", 16, "parallel workers")
 	replay := flag.String("replay", "", "replay a recorded case file")
 	noNative := flag.Bool("no-native", false, "skip native differential/replay")
